@@ -27,7 +27,9 @@ class Unsupported(Exception):
 class Lexer:
     """regex structure + character classes of the snapshot's lexer"""
 
-    def __init__(self, plylexer):
+    def __init__(self, plylexer, reference=None):
+        """reference: optional dict(pattern, flags, ignore, groups, returns_function) of a second rule set over the same
+        characters (spec/grammar_ref.json); its atoms take part in the partition of the code points"""
         res = plylexer.lexstatere['INITIAL']
         if len(res) != 1:
             raise Unsupported("master regex split into %d parts" % len(res))
@@ -50,7 +52,29 @@ class Lexer:
         self.atoms = {}
         for _, items, _ in self.rules:
             self._collect(items)
+        self.ref_rules = None
+        self.ref_ignore = None
+        if reference is not None:
+            self.ref_rules = self._rules_of(reference["pattern"], reference["flags"],
+                                            [None if g is None else (reference["returns_function"][i], g) for i, g in enumerate(reference["groups"])])
+            self.ref_ignore = reference["ignore"]
+            for _, items, _ in self.ref_rules:
+                self._collect(items)
         self._classes()
+
+    def _rules_of(self, pattern, flags, names):
+        tree = sre_parse.parse(pattern, flags)
+        top = list(tree)
+        if len(top) != 1 or top[0][0] is not sre_c.BRANCH:
+            raise Unsupported("master regex is not a top-level alternation")
+        rules = []
+        for alt in top[0][1][1]:
+            alt = list(alt)
+            if len(alt) != 1 or alt[0][0] is not sre_c.SUBPATTERN:
+                raise Unsupported("top-level alternative is not a single named group")
+            entry = names[alt[0][1][0]]
+            rules.append((entry[1], list(alt[0][1][3]), bool(entry[0])))
+        return rules
 
     # ---- atoms ------------------------------------------------------------------------------------------------
     def _akey(self, item):
@@ -120,6 +144,8 @@ class Lexer:
         ign_bit = len(keys)
         for ch in self.ignore:
             vec[ord(ch)] |= (1 << ign_bit)
+        for ch in (self.ref_ignore or ''):
+            vec[ord(ch)] |= (1 << (ign_bit + 1))
         classes = {}
         for cp, v in enumerate(vec):
             classes.setdefault(v, []).append(cp)
@@ -133,6 +159,7 @@ class Lexer:
         for bit, k in enumerate(keys):
             self.member[k] = {i for i, (v, _, _) in enumerate(self.classes) if v & (1 << bit)}
         self.ign_classes = {i for i, (v, _, _) in enumerate(self.classes) if v & (1 << ign_bit)}
+        self.ref_ign_classes = {i for i, (v, _, _) in enumerate(self.classes) if v & (1 << (ign_bit + 1))}
         self.class_of = {}
         for i, (v, rep, _) in enumerate(self.classes):
             self.class_of[rep] = i
@@ -146,6 +173,8 @@ class Lexer:
                 v |= (1 << bit)
         if ch in self.ignore:
             v |= (1 << len(self.keys))
+        if ch in (self.ref_ignore or ''):
+            v |= (1 << (len(self.keys) + 1))
         for i, (cv, _, _) in enumerate(self.classes):
             if cv == v:
                 return i
@@ -155,8 +184,10 @@ class Lexer:
 class TextChart:
     """symbolic text c[0..W-1] (c[k] = EOF beyond its length) and the lexer's raw matches over it"""
 
-    def __init__(self, lx, W, name='t', chars=None):
+    def __init__(self, lx, W, name='t', chars=None, use_reference=False):
         self.lx, self.W, self.name = lx, W, name
+        self.rules = lx.ref_rules if use_reference else lx.rules
+        self.ign = lx.ref_ign_classes if use_reference else lx.ign_classes
         self.ncls = len(lx.classes)
         self.eof = self.ncls
         self.bits = max(1, self.ncls.bit_length())
@@ -280,7 +311,7 @@ class TextChart:
     def rule_cands(self, ri, k):
         key = (ri, k)
         if key not in self._cand:
-            self._cand[key] = [(e, c) for e, c in self.match(self.lx.rules[ri][1], k) if e > k]
+            self._cand[key] = [(e, c) for e, c in self.match(self.rules[ri][1], k) if e > k]
         return self._cand[key]
 
     def has(self, ri, k):
@@ -314,7 +345,7 @@ class TextChart:
         r = None
         if ce is not None:
             earlier = [self.not_(self.has(rj, k)) for rj in range(ri)]
-            r = self.and_(self.not_(self.in_classes(k, self.lx.ign_classes)), ce, *earlier)
+            r = self.and_(self.not_(self.in_classes(k, self.ign)), ce, *earlier)
             r = self.name_(r, "tok")
         self._tok[key] = r
         return r
@@ -330,9 +361,9 @@ class TextChart:
         if k == 0:
             alts.append(True)
         else:
-            alts.append(self.and_(self.at(k - 1), self.in_classes(k - 1, self.lx.ign_classes)))
+            alts.append(self.and_(self.at(k - 1), self.in_classes(k - 1, self.ign)))
             for j in range(k):
-                for ri in range(len(self.lx.rules)):
+                for ri in range(len(self.rules)):
                     t = self.tok(j, ri, k)
                     if t is not None:
                         alts.append(self.and_(self.at(j), t))
@@ -344,8 +375,8 @@ class TextChart:
         """illegal character at k: no rule matches there"""
         if k >= self.W:
             return None
-        nothing = [self.not_(self.has(ri, k)) for ri in range(len(self.lx.rules))]
-        return self.and_(self.at(k), self.c[k] != self.eof, self.not_(self.in_classes(k, self.lx.ign_classes)), *nothing)
+        nothing = [self.not_(self.has(ri, k)) for ri in range(len(self.rules))]
+        return self.and_(self.at(k), self.c[k] != self.eof, self.not_(self.in_classes(k, self.ign)), *nothing)
 
     def text_of(self, model):
         out = []
